@@ -326,8 +326,40 @@ C17 = {
 
 
 # ---------------------------------------------------------------- C19: platform route vocabularies
+# route templates of each platform ('*' = every token of the vocabulary): the documented URL shapes that are deeper than
+# the exhaustively enumerated paths
+ROUTES = {
+    "facebook": ["groups/*/posts/*", "groups/*/permalink/*", "*/posts/*", "*/videos/*", "*/photos/*/*", "groups/*/*"],
+    "youtube": ["channel/*/videos", "c/*/videos", "user/*/videos", "embed/*/x", "shorts/*/x", "v/*/x", "*/videos"],
+    "twitter": ["*/status/*", "*/statuses/*", "i/lists/*", "*/lists/*", "*/status/*/photo/1", "i/web/status/*"],
+    "instagram": ["*/p/*", "stories/*/*", "p/*/x", "reel/*/x", "*/reel/*"],
+    "telegram": ["s/*/*", "c/*/*", "joinchat/*/x", "*/*/x"],
+    "google": ["document/d/*/edit", "spreadsheets/d/e/*/pub", "file/d/*/view", "document/d/*/*", "presentation/d/e/*/*", "*/d/*/pub"],
+}
+
+
+def dec_(cps):
+    return "".join(chr(c) for c in cps)
+
+
 def _plat(hosts, segs, items, frags):
     return {"hosts": [cp(x) for x in hosts], "segs": [cp(x) for x in segs], "items": [cp(x) for x in items], "frags": [cp(x) for x in frags]}
+
+
+def _routes(plat, segs):
+    # a template as a sequence of vocabulary indices, 0 for the wildcard; literal segments missing from the vocabulary are appended to it
+    out = []
+    for r in ROUTES[plat]:
+        t = []
+        for part in r.split("/"):
+            if part == "*":
+                t.append(0)
+            else:
+                if part not in segs:
+                    segs.append(part)
+                t.append(segs.index(part) + 1)
+        out.append(t)
+    return out
 
 
 C19 = {
@@ -374,6 +406,10 @@ def main():
     sys.path.insert(0, "/repo")
     from ural.data import ISO_3166_1_COUNTRIES_ALPHA_2  # data the property is stated over, not logic
     NORM["countries"] = [cp(c.lower()) for c in sorted(ISO_3166_1_COUNTRIES_ALPHA_2)]
+    for plat, v in C19["platforms"].items():
+        names = [dec_(x) for x in v["segs"]]
+        v["routes"] = _routes(plat, names)
+        v["segs"] = [cp(x) for x in names]
     with open(os.path.join(d, "c19.json"), "w") as f:
         json.dump(C19, f, separators=(",", ":"))
     with open(os.path.join(d, "c17.json"), "w") as f:
